@@ -38,10 +38,10 @@ m = {
                  "serves_properties": [c["property_id"] for c in checks],
                  "kind_free_text": "Lean 4 (4.33.0, Mathlib) model generic over a number class: theorems at R := real numbers and for all R; "
                                    "the same definitions at R := Float run as a compiled driver that is compared with the real library on "
-                                   "generated inputs (Rust harness, path dependency on /repo); constants are regenerated from the source on every run"}],
+                                   "generated inputs (Rust harness, path dependency on /repo); constants, closed-form formulas, branching helpers, wrapper methods, the collision decision and the robot table are regenerated from the current source text on every run by translators (tools/rs2lean*.py) and tied to the model by theorems (Props/Tie.lean, TieColl.lean, Presets.lean)"}],
     "checks": checks,
     "not_applicable": na,
-    "notes": "See DESIGN.md. Fix commits in /repo and their witnesses are listed in known_findings.json.",
+    "notes": "See DESIGN.md (sections 11.x describe what was built). Fix commits in /repo (D1-D21, D23) and the known finding D22 are listed in known_findings.json; seeded/ holds 159 confirmed property-breaking changes with the verdicts of the quick checks in seeded/RESULTS.md.",
 }
 json.dump(m, open(os.path.join(ROOT, "MANIFEST.json"), "w"), indent=1)
 print("claimed:", [c["property_id"] for c in checks], "unclaimed:", len(na))
